@@ -40,8 +40,11 @@ Log(e, i, t) == hist' = Append(hist, [e |-> e, f |-> d.funcs[i].name, kwargs |->
 Started(i) == IF d.funcs[i].name \in DOMAIN nstarted THEN nstarted[d.funcs[i].name] ELSE 0
 
 MBegin == Begin(FullCfg) /\ hist' = <<>> /\ nstarted' = [n \in {} |-> 0]
+(* implementation-shaped: pipefunc submits a generation only after the previous one has been processed completely *)
+Barrier(i) == \A j \in cfg.F : GenOf(d, j) < GenOf(d, i) => Complete(j)
 MCall == \E i \in cfg.F : \E t \in CallPositions(i) :
             /\ Cardinality(Running) < MaxConc
+            /\ Barrier(i)
             /\ Call(i, t, ElemKwargs(d, den, i, t))
             /\ Log("call", i, t)
             /\ nstarted' = [n \in DOMAIN nstarted \cup {d.funcs[i].name} |-> IF n = d.funcs[i].name THEN Started(i) + 1 ELSE nstarted[n]]
@@ -66,7 +69,7 @@ InvDoneStored == DoneStored
 (* exactly once: at the end of a successful run every element was called exactly once (called is a set: at most once) *)
 InvExactlyOnce == (Ended /\ hist[Len(hist)].e = "return") => called = AllElements
 (* never before its inputs are complete *)
-InvInputsComplete == \A e \in called : \A j \in DepsIn(e[1]) : Elements(j) \subseteq called
+InvInputsComplete == \A e \in called : \A j \in DepsIn(e[1]) : ConsumedOf(e[1], e[2], j) \subseteq called
 (* after a failure nothing of a later generation runs *)
 InvNoLaterGeneration == \A e \in failed : \A c \in called : GenOf(d, c[1]) <= GenOf(d, e[1])
 (* the run terminates: returns or raises *)
